@@ -160,7 +160,34 @@ def line(pats, ins):
     return " ".join(toks)
 
 
+def shared_set(r):
+    """Patterns whose byte strings coincide with other patterns' bytes or masks (the harness makes equal strings of a
+    line ONE slice): A = (X, mask with don't-care bits) where X is also the MASK of B, or windows of one table."""
+    n = r.choice([1, 2, 2, 3])
+    x = [0xff] * n
+    ma = [r.choice([0xf0, 0x0f, 0xfc, 0x3f, 0xff]) for _ in range(n)]
+    ma[-1] = ma[-1] or 0xff
+    a = (list(x), ma)                                   # bytes X with don't-care bits set, mask ma
+    bb = [r.randrange(256) for _ in range(n)]
+    if all((v & m) == m for v, m in zip(bb, ma)):       # keep A and B disjoint
+        bb[0] &= 0x0f if ma[0] & 0xf0 else 0xf0
+    b = (bb, list(x))                                   # exact pattern whose mask is X
+    pats = [a, b] if r.random() < 0.5 else [b, a]
+    if r.random() < 0.4:
+        c = [r.randrange(256) for _ in range(n + 1)]
+        pats.append((c, [0xff] * (n + 1)))
+    return pats
+
+
 def g_opmatch(r):
+    if r.random() < 0.06:
+        pats = shared_set(r)
+        ins = inputs_for(r, pats)
+        for _ in range(3):                              # inputs next to B's bytes (one bit away)
+            v = list(pats[0][0] if pats[0][1] == [0xff] * len(pats[0][1]) else pats[1][0])
+            v[r.randrange(len(v))] ^= 1 << r.randrange(8)
+            ins.append(v)
+        return line(pats, ins)
     pats = disjoint_set(r) if r.random() < 0.45 else pattern_set(r)
     if r.random() < 0.03:
         pats = []
